@@ -726,7 +726,7 @@ def custom_pad_right(lhs, rhs, other, ctx):
     (lst, any, any) -> vectorised
     """
     if isinstance(lhs, LazyList):
-        return vectorise(custom_pad_left, lhs, rhs, other)
+        return vectorise(custom_pad_right, lhs, rhs, other)
     if isinstance(rhs, int):
         return lhs.rjust(rhs, other)
     if isinstance(other, int):
